@@ -15,16 +15,8 @@ def timer_jobs(tier):
     out = []
     for u, un in enumerate(UNITS):
         for pre in (0, 1):
-            # the 128-bit product equality is a multiplier/divider equivalence: CaDiCaL and kissat > 120 s, cvc5
-            # (bit-vectors as integers) 12 s [measured]; it is therefore decided in a job of its own.
             out.append({
-                "name": "timer-%s-%s-arith" % (un, "rearm" if pre else "fresh"), "src": "timer.c",
-                "defs": dict(KF, UNIT=u, PRE=pre), "unwind": 6, "solver": "cvc5", "prop_include": "128-bit",
-                "shape": "unit=%s, %s; all 64-bit data" % (un, "re-arm" if pre else "fresh udata"),
-                "desc": "tv_sec*10^9 + tv_nsec == data*unit in 128-bit arithmetic for every accepted value",
-            })
-            out.append({
-                "name": "timer-%s-%s" % (un, "rearm" if pre else "fresh"), "src": "timer.c", "prop_exclude": "128-bit",
+                "name": "timer-%s-%s" % (un, "rearm" if pre else "fresh"), "src": "timer.c",
                 "defs": dict(KF, UNIT=u, PRE=pre), "unwind": 6, "solver": SOLVER,
                 "shape": "unit=%s, %s; all 64-bit data, flags in {0,ONESHOT,DISPATCH}, ABSTIME on/off, all kernel results" % (
                     un, "timer already installed by an earlier add (re-arm)" if pre else "fresh udata"),
@@ -33,5 +25,21 @@ def timer_jobs(tier):
             })
     return out
 
+def lemma_jobs(tier):
+    out = []
+    for u, un in enumerate(UNITS):
+        if u in (1, 2):   # cvc5 (bv-as-int) decides the product identity in < 1 s but hangs on the comparison lemma
+            out.append({"name": "lemma-%s-product" % un, "src": "lemma.c", "defs": {"UNIT": u}, "unwind": 2, "solver": "cvc5",
+                        "prop_exclude": "fit time_t", "shape": "unit=%s, all 64-bit data" % un,
+                        "desc": "(data/S)*10^9 + (data%S)*U == data*U (128-bit), (data%S)*U < 10^9"})
+            out.append({"name": "lemma-%s-range" % un, "src": "lemma.c", "defs": {"UNIT": u}, "unwind": 2, "solver": SOLVER,
+                        "prop_include": "fit time_t", "shape": "unit=%s, all 64-bit data" % un,
+                        "desc": "data/S fits time_t <=> data*U < (INT64_MAX+1)*10^9"})
+        else:
+            out.append({"name": "lemma-%s" % un, "src": "lemma.c", "defs": {"UNIT": u}, "unwind": 2, "solver": SOLVER,
+                        "shape": "unit=%s, all 64-bit data" % un,
+                        "desc": "Euclid form == 128-bit product (ns: C11 6.5.5p6, not re-proved), nsec range, time_t fit"})
+    return out
+
 def jobs(tier):
-    return timer_jobs(tier)
+    return timer_jobs(tier) + lemma_jobs(tier)
